@@ -69,6 +69,7 @@ def tc(v):
         return '(' + v.name + ' ' + ' '.join(tc(a) for a in v.args) + ')'
     return to_coq(v)
 SHARD = 400
+MAX_REPORTED = 40       # violations reported individually (each writes a replay file); the rest are counted
 OPEN_THEOREMS = []      # filled from Props/C06.v comments at run time
 
 
@@ -77,6 +78,18 @@ OPEN_THEOREMS = []      # filled from Props/C06.v comments at run time
 
 class Timeout(Exception):
     pass
+
+
+def report(ctx, what, replay):
+    """ctx.violation with a cap: a behavioural change of the codec typically
+    breaks hundreds of generated cases; the first MAX_REPORTED are reported
+    with replay files, the others only counted (the exit status is the same)."""
+    n = ctx.extra.get('violations_total', 0) + 1
+    ctx.extra['violations_total'] = n
+    if n <= MAX_REPORTED:
+        ctx.violation(what, replay)
+    elif n == MAX_REPORTED + 1:
+        print('  ... further violations are counted, not listed (see violations_total in the evidence)', flush=True)
 
 
 def _alarm(signum, frame):
@@ -214,6 +227,33 @@ def mutate(rng, data):
     return bytes(b)
 
 
+def older_version(rng, mod):
+    """A legal earlier version of the module: every extensible SEQUENCE / SET /
+    CHOICE / ENUMERATED loses a random suffix of its additions (the marker
+    stays).  Returns None when nothing could be dropped."""
+    import copy
+    m1 = copy.deepcopy(mod)
+    dropped = [0]
+
+    def cut(t):
+        k = t['k']
+        if k in ('SEQUENCE', 'SET', 'CHOICE', 'ENUMERATED') and t.get('ext'):
+            keep = rng.randrange(0, len(t['ext']))
+            dropped[0] += len(t['ext']) - keep
+            t['ext'] = t['ext'][:keep]
+        if k in ('SEQUENCE', 'SET'):
+            for m in G.all_members(t):
+                cut(m['t'])
+        elif k == 'CHOICE':
+            for m in t['root'] + (t['ext'] or []):
+                cut(m['t'])
+        elif k in ('SEQUENCE OF', 'SET OF'):
+            cut(t['elem'])
+    for _, t in m1['types']:
+        cut(t)
+    return m1 if dropped[0] else None
+
+
 def collect_module(ctx, cs, mod, text, gen_value, nvals, numeric, origin, ntrunc=6, nmal=3, values=None):
     """Run the library on values of every in-scope type of the module and
     record the expectations for the Coq side."""
@@ -226,6 +266,15 @@ def collect_module(ctx, cs, mod, text, gen_value, nvals, numeric, origin, ntrunc
         return
     spec = r[1]
     ei = None
+    # the same module one version earlier (C07's forward direction, as correspondence + "must decode")
+    mod1 = older_version(rng, mod)
+    spec1 = ei1 = None
+    if mod1 is not None:
+        text1 = G.render_module(mod1, G.make_resolver(mod1))
+        r1 = lib.attempt(lib.compile_string, text1, 'oer', numeric_enums=numeric)
+        if r1[0] == 'ok':
+            spec1 = r1[1]
+            rt1 = G.make_resolver(mod1)
     for name, t in mod['types']:
         why = O.why_out_of_scope(mod, t)
         if why:
@@ -254,7 +303,7 @@ def collect_module(ctx, cs, mod, text, gen_value, nvals, numeric, origin, ntrunc
                 cs.spec.append((ei, numeric, tyc, vc, res_term(got, bytes), dict(meta, kind='x696')))
                 ctx.count('x696:' + rt_of(t)['k'])
                 if got[0] != 'ok':
-                    ctx.violation('library cannot encode a value of the type: %r' % (got[1:],),
+                    report(ctx, 'library cannot encode a value of the type: %r' % (got[1:],),
                                   dict(meta, kind='x696-encode-error'))
             else:
                 ctx.count('nonconforming:' + why_nc)
@@ -270,11 +319,30 @@ def collect_module(ctx, cs, mod, text, gen_value, nvals, numeric, origin, ntrunc
             want = O.oer_norm(rt_of, t, api_v, numeric)
             ctx.evaluations += 1
             if d[0] != 'ok' or d[1] != want:
-                ctx.violation('decode(encode(v) + tail) is not the normalised value: got %r want %r' % (d[1:], want),
+                report(ctx, 'decode(encode(v) + tail) is not the normalised value: got %r want %r' % (d[1:], want),
                               dict(meta, kind='roundtrip', data=(data + tail).hex()))
                 continue
             cs.dec.append((ei, numeric, tyc, data + tail,
                            C('Ok', (G.coq_value(rt_of, t, d[1]), len(data))), dict(meta, kind='decode', data=(data + tail).hex())))
+            if spec1 is not None:
+                d1 = guarded(spec1.decode, name, data + tail)
+                if d1[0] != 'timeout':
+                    ctx.evaluations += 1
+                    ctx.count('forward:' + ('ok' if d1[0] == 'ok' else d1[1].name))
+                    if d1[0] != 'ok':
+                        report(ctx, 'an encoding of the extended type is rejected by the earlier version: %r' % (d1[1:],),
+                               dict(meta, kind='forward', spec=text1, spec_v2=text, data=(data + tail).hex()))
+                    else:
+                        if ei1 is None:
+                            ei1 = cs.add_env(mod1, numeric)
+                        t1 = dict(mod1['types'])[name]
+                        try:
+                            exp1 = C('Ok', (G.coq_value(rt1, t1, d1[1]), len(data)))
+                            tc(exp1)
+                            cs.dec.append((ei1, numeric, tyc, data + tail, exp1,
+                                           dict(meta, kind='decode-forward', spec=text1, data=(data + tail).hex())))
+                        except Exception:
+                            ctx.count('forward:unexportable')
             # strict prefixes: must be decode errors (and the model must agree on the class)
             ks = list(range(len(data))) if len(data) <= ntrunc else \
                 sorted(set([0, 1, len(data) - 1] + [rng.randrange(len(data)) for _ in range(ntrunc - 3)]))
@@ -286,7 +354,7 @@ def collect_module(ctx, cs, mod, text, gen_value, nvals, numeric, origin, ntrunc
                 ctx.evaluations += 1
                 ctx.count('trunc:' + (dp[1].name if dp[0] == 'err' else 'ok'))
                 if dp[0] == 'ok' or dp[1].name not in ('EOutOfData', 'EDecode'):
-                    ctx.violation('strict prefix (%d of %d octets) of an encoding does not raise a decode error: %r'
+                    report(ctx, 'strict prefix (%d of %d octets) of an encoding does not raise a decode error: %r'
                                   % (kk, len(data), dp[1:]), dict(meta, kind='truncation', data=p.hex(), k=kk))
                     continue
                 cs.dec.append((ei, numeric, tyc, p, res_term(dp, lambda x: (G.coq_value(rt_of, t, x), -1)),
@@ -546,7 +614,7 @@ def run_coq(ctx, cs):
     nsh = max(nsh, -(-(ne + ns + nd) // (3 * SHARD)))
     for i in range(nsh):
         jobs.append((i, cs.enc[i::nsh], cs.spec[i::nsh], cs.dec[i::nsh]))
-    ctx.coq_eval('warm', O.COQ_IMPORTS, 'Eval vm_compute in 0.\n')       # builds the model once, serially
+    ctx.coq_eval('warm', O.COQ_IMPORTS, 'Eval vm_compute in 0.\n')       # builds the model once (if Props did not), serially
 
     def work(job):
         i, enc, spec, dec = job
@@ -562,7 +630,7 @@ def run_coq(ctx, cs):
     shown = 0
     for kind, c in bad:
         meta = c[5]
-        model = explain(ctx, cs, kind, c) if shown < 12 else '(not evaluated)'
+        model = explain(ctx, cs, kind, c) if shown < 8 else '(not evaluated)'
         shown += 1
         if kind == 'spec':
             what = 'X.696 model and library disagree on the encoding of %s value %s: library %s, X.696 %s' % (
@@ -573,7 +641,7 @@ def run_coq(ctx, cs):
         else:
             what = 'implementation model and library disagree on decode(%s, %s): library %s, model %s' % (
                 meta['type'], meta['data'][:80], show(c[4]), fmt_model(model))
-        ctx.violation(what, dict(meta, expected=show(c[4]), model=model))
+        report(ctx, what, dict(meta, expected=show(c[4]), model=model))
 
 
 def show(t):
@@ -646,7 +714,10 @@ def run(ctx):
                 '0/1/127/128/255/256/65535/65536, 1..17 additions, 6..16 optionals, CHOICE tags up to 2^32); each case: '
                 'encode, X.696 model, decode(+tail), every/sampled strict prefix, mutated octets; distinct by (origin, type '
                 'shape, value class, numeric); non-trivial = type AST size >= 3 or boundary layer')
-    ok = ctx.coq_props()
+    ok = ctx.coq_props(extra_targets=['theories/Oer/OerCorr.vo', 'theories/Oer/X696Vectors.vo'])
+    if ok:      # everything the case files import has just been built: do not take the build lock again
+        ctx._built.add(tuple(sorted('theories/%s.vo' % i.replace('.', '/') for i in O.COQ_IMPORTS)))
+    ctx.log('props built and audited')
     replay_findings(ctx)
     cs = Cases()
     quick = ctx.quick
@@ -654,14 +725,15 @@ def run(ctx):
     for mod, vals in boundary_modules(ctx, quick):
         text = G.render_module(mod, G.make_resolver(mod))
         for numeric in ((False, True) if mod['name'] == 'BE' else (False,)):
-            collect_module(ctx, cs, mod, text, None, 0, numeric, 'boundary', ntrunc=4, nmal=1, values=vals)
-    nmods = 60 if quick else 900
+            collect_module(ctx, cs, mod, text, None, 0, numeric, 'boundary', ntrunc=3 if quick else 6, nmal=1, values=vals)
+    ctx.log('boundary layer done: %d evaluations' % ctx.evaluations)
+    nmods = 45 if quick else 900
     for i in range(nmods):
         opts = G.Opts(big=(not quick and i % 10 == 0), max_depth=rng.choice([2, 3]), n_types=rng.choice([2, 4]))
         mod, text, gen = G.generate(rng, opts)
         numeric = rng.random() < .35
         collect_module(ctx, cs, mod, text, gen.gen_value, 2 if quick else 3, numeric, 'random',
-                       ntrunc=5 if quick else 8, nmal=2 if quick else 4)
+                       ntrunc=4 if quick else 8, nmal=2 if quick else 4)
     ctx.log('library side done: %d evaluations' % ctx.evaluations)
     run_coq(ctx, cs)
     ctx.extra['open_theorems'] = open_theorems()
